@@ -113,7 +113,13 @@ def run_case(case, budget=140):
     proc.setMaximumTime(case['maxtime'])
     cls = StochasticDynamics if case['dynamics'] == 'stochastic' else SynchronousDynamics
     dyn = cls(proc, g)
-    orc = Oracle(seed=0, script={'random': list(case['states'])}, strict=True)
+
+    class RecOracle(Oracle):
+        def random(self):
+            v = super().random()
+            calls.append(['R', 0.0, v])
+            return v
+    orc = RecOracle(seed=0, script={'random': list(case['states'])}, strict=True)
     snaps = []
     taps = []
 
@@ -173,3 +179,228 @@ def run_case(case, budget=140):
     if exc and exc.startswith('Budget'):
         obs['skipped'] = True
     return obs
+
+
+# ---------------------------------------------------------------- oracle values, recomputed from the recorded arguments
+def oracle_value(case, call):
+    k, arg = call[0], call[1]
+    if k == 'N' or k == 'T':
+        return round(arg, PREC)
+    if k == 'S':
+        return f_state(case['b'], arg)
+    if k == 'G':
+        return f_phase(case['b'], arg)
+    if k == 'R':
+        return call[2]
+    raise ValueError(call)
+
+
+KIND = {'N': 'RN', 'T': 'RT', 'S': 'RS', 'G': 'RG', 'R': 'RR'}
+
+
+def c_cfg(case):
+    g = make_graph(case['graph'])
+    adj = L.lst(['(%s, %s)' % (L.z(n), L.lst(list(networkx.neighbors(g, n)), L.z)) for n in g.nodes()])
+    return ('{| pc_nodes := %s; pc_adj := %s; pc_period := %s; pc_coupling := %s; pc_maxtime := %s; pc_observe := true |}'
+            % (L.lst(list(g.nodes()), L.z), adj, L.q(case['period']), L.q(case['coupling']), L.q(case['maxtime'])))
+
+
+def to_coq(case, obs):
+    if obs.get('skipped'):
+        return None
+    ok = obs['exception'] is None and obs['time'] is not None and obs['phases'] is not None
+    snaps = []
+    for s in obs['snaps']:
+        for p in s['nodes']:
+            if p['id'] is None or not (0 <= p['id'] < 5000):
+                ok = False
+                continue
+            snaps.append('(%s, %s)' % (L.nat(p['id']), L.opt(p['pending'], L.q)))
+    try:
+        oracle = L.lst(['(%s, %s)' % (KIND[c[0]], L.q(oracle_value(case, c))) for c in obs['calls']])
+    except (ValueError, OverflowError, ZeroDivisionError):
+        return None
+    args = L.lst(['(%s, %s)' % (KIND[c[0]], L.q(c[1])) for c in obs['calls']])
+    fired = [tp for tp in obs['taps'] if tp[1] == obs['fired_name']]
+    return ('{| c_cfg := %s; c_sync := %s; c_oracle := %s; c_orders := %s; o_args := %s; o_snaps := %s; o_taps := %s; '
+            'o_ftimes := %s; o_fnodes := %s; o_phases := %s; o_time := %s; o_events := %s; o_ok := %s |}') % (
+        c_cfg(case), L.b(case['dynamics'] == 'synchronous'), oracle,
+        L.lst([L.lst(o, L.z) for o in obs['orders']]), args, L.lst(snaps),
+        L.lst(['(%s, %s)' % (L.q(tp[0]), L.z(tp[2])) for tp in fired]),
+        L.lst(obs['firing_times'] or [], L.q), L.lst(obs['firing_nodes'] or [], L.z), L.lst(obs['phases'] or [], L.q),
+        L.q(obs['time'] if ok else 0), L.nat(obs['events'] if ok else 0), L.b(ok))
+
+
+# ---------------------------------------------------------------- D: the property on the implementation's observables
+def is_complete(case):
+    g = make_graph(case['graph'])
+    n = g.number_of_nodes()
+    return all(sum(1 for m in g.neighbors(v) if m != v) == n - 1 for v in g.nodes())
+
+
+def groups(values):
+    c = {}
+    for v in values:
+        c[v] = c.get(v, 0) + 1
+    return len(c), max(c.values())
+
+
+def code_phase(pt, now, period):
+    """the phase as getPhase(t, n, normalise=True) defines it, from the pending time"""
+    phi = max(min(round(1 - (pt - now) / period, PREC), 1.0), 0.0)
+    return 0.0 if phi == 1.0 else phi + 0.0
+
+
+def direct(case, obs):
+    out = []
+
+    def bad(sig, **detail):
+        out.append({'signature': sig, 'detail': detail})
+    if obs.get('skipped'):
+        return out
+    if obs['exception'] is not None:
+        bad('exception', exception=obs['exception'])
+        return out
+    period = case['period']
+    nodes = make_graph(case['graph']).nodes()
+    nn = len(nodes)
+    taps = obs['taps']
+    slack = SLACK * (1 + 1e-6)
+    complete = is_complete(case)
+    last_sample = None
+    ev = -1
+    for s in obs['snaps']:
+        now = s['now']
+        if s['tag'] == 'event':
+            ev += 1
+            t, name, e, mine = taps[ev]
+            if name != obs['fired_name'] or not mine:
+                bad('foreign-event', tap=taps[ev])
+        # exactly one pending firing per node, named by its 'event' attribute
+        for p in s['nodes']:
+            if p['id'] is None or p['pending'] is None:
+                bad('no-pending-event', snap=ev, node=p['node'], id=p['id'])
+            elif p['live_ids'] != [p['id']]:
+                bad('live-entries-not-one', snap=ev, node=p['node'], id=p['id'], live=p['live_ids'])
+            elif not (p['pending'] <= now + period + slack):
+                bad('due-later-than-one-period', snap=ev, node=p['node'], pending=p['pending'], now=now)
+        if s['finder'] != nn or s['heap_live'] != nn:
+            bad('live-entries-total', snap=ev, finder=s['finder'], heap_live=s['heap_live'], nodes=nn)
+        # the node that fired is due one period later; the log follows the taps
+        if s['tag'] == 'event':
+            me = [p for p in s['nodes'] if p['node'] == e]
+            if len(me) != 1 or me[0]['pending'] is None or abs(me[0]['pending'] - (t + period)) > slack:
+                bad('refire-not-one-period-later', snap=ev, node=e, t=t, pending=me[0]['pending'] if me else None)
+            if len(s['log_t']) != ev + 1 or len(s['log_n']) != ev + 1:
+                bad('log-length', snap=ev, times=len(s['log_t']), nodes=len(s['log_n']))
+            elif s['log_t'][-1] != t or s['log_n'][-1] != e:
+                bad('log-entry-differs-from-tap', snap=ev, log=[s['log_t'][-1], s['log_n'][-1]], tap=[t, e])
+            if now != t:
+                bad('clock-differs-from-event-time', snap=ev, now=now, t=t)
+        # synchrony is absorbing on complete networks: sampled when no node is due now (between batches)
+        if complete and all(p['pending'] is not None for p in s['nodes']):
+            pend = [p['pending'] for p in s['nodes']]
+            if all(pt != now for pt in pend) or s['tag'] == 'setup':
+                k, big = groups([code_phase(pt, now, period) for pt in pend])
+                kp, bigp = groups(pend)
+                if last_sample is not None:
+                    if k > last_sample[0] or kp > last_sample[2]:
+                        bad('distinct-phases-increased', snap=ev, before=last_sample, after=[k, big, kp, bigp])
+                    if big < last_sample[1] or bigp < last_sample[3]:
+                        bad('largest-group-shrank', snap=ev, before=last_sample, after=[k, big, kp, bigp])
+                last_sample = [k, big, kp, bigp]
+    if ev + 1 != len(taps):
+        bad('taps-without-snapshot', taps=len(taps), snaps=ev + 1)
+    ft, fn, ph = obs['firing_times'], obs['firing_nodes'], obs['phases']
+    if ft is None or fn is None or ph is None:
+        bad('results-missing')
+        return out
+    if len(ft) != len(fn) or len(ft) != len(taps):
+        bad('results-lengths', times=len(ft), nodes=len(fn), taps=len(taps))
+    elif [[a, b] for a, b in zip(ft, fn)] != [[tp[0], tp[2]] for tp in taps]:
+        bad('results-differ-from-taps')
+    if any(ft[i] > ft[i + 1] for i in range(len(ft) - 1)):
+        bad('firing-times-decrease', times=ft)
+    if len(ph) != nn or any(not (0.0 <= x <= 1.0) for x in ph):
+        bad('final-phase-out-of-range', phases=ph)
+    return out
+
+
+# ---------------------------------------------------------------- generator
+PERIODS = [1.0, 1.0, 2.0, 0.5, 0.7, 1.3, 0.25, 3.0, 0.12345]
+BS = [1.0, 1.0, 2.0, 0.5, 3.0, 5.0]
+COUPLINGS = [0.125, 0.05, 0.3, 0.007, 1.0, 0.0, 0.5, -0.05]
+
+
+def gen_case(rnd, tier='quick'):
+    graph = gen_graph(rnd)
+    n = len(graph['nodes'])
+    dynamics = rnd.choice(['stochastic', 'synchronous'])
+    period = rnd.choice(PERIODS)
+    if dynamics == 'synchronous':
+        period = rnd.choice([1.0, 2.0, 0.5, 0.7, 1.3, 3.0])
+    cycles = rnd.choice([1.5, 2.5, 4.0, 6.0])
+    while n * cycles > 48 and cycles > 1.5:
+        cycles -= 1.0
+    maxtime = period * cycles
+    if dynamics == 'synchronous':
+        maxtime = float(max(2, math.ceil(maxtime)))
+    mode = rnd.randrange(6)
+    states = []
+    for i in range(n):
+        if mode == 0 and states and rnd.random() < 0.5:
+            states.append(rnd.choice(states))                 # synchronised from the start
+        elif mode == 1 and rnd.random() < 0.3:
+            states.append(rnd.choice([0.0, 0.5, 1 - 2.0 ** -20, 2.0 ** -20]))
+        elif mode == 2 and states:
+            states.append(min(1 - 2.0 ** -20, max(0.0, states[0] + rnd.randrange(-8, 9) * 2.0 ** -14)))   # nearly synchronised
+        else:
+            states.append(rnd.randrange(0, 1 << 20) / float(1 << 20))
+    return {'graph': graph, 'period': period, 'b': rnd.choice(BS), 'coupling': rnd.choice(COUPLINGS),
+            'maxtime': maxtime, 'dynamics': dynamics, 'states': states}
+
+
+class H(Harness):
+    ID = 'C20'
+    TIE_IMPORT = 'From EpyV Require Import Model.Kernel Model.Pulse Tie.C20.\nOpen Scope Q_scope.'
+    CHECK_FN = 'EpyV.Tie.C20.check_case'
+    QUICK_N = 240
+    THOROUGH_N = 2400
+    CASE_TIMEOUT = 30
+    ALLOWED_AXIOMS = set()
+    RULE = ('whole runs of PulseCoupledOscillator on networks of 2-8 nodes (complete, cycle, star, random, random with self-loops; '
+            'node order sometimes not numeric), periods incl. non-dyadic and one off the 1e-5 grid, dissipation 0.5-5, couplings '
+            'incl. 0, 1 and a negative one, StochasticDynamics and SynchronousDynamics, scripted initial states (random dyadic, '
+            'equal groups, nearly equal, 0 and almost 1); non-trivial = at least 3 firings and at least one cascade that moved a '
+            'node; distinct by the whole case')
+    TRUSTED = ['Coq 8.16.1 kernel incl. vm_compute',
+               'harness/c20.py and vlib (scripted rng.random, recording of the arguments of the numeric maps, reading of '
+               'dyn._postedEventFinder / _postedEvents and of the node attribute for D)',
+               'the values of decimal round(x, 5), exp and log are computed by CPython from the recorded arguments (oracle values of the model)']
+    ASSUMPTIONS = ['C20_sync_absorbing_partial assumes that the pending time a bumped node moves to is a function of the event time and its '
+                   'old pending time alone, that a node due now stays due now or joins the firing node, and that a node that has just '
+                   'fired is left where it is (phase 0 maps to itself); D checks the conclusion on every complete-network case',
+                   'period > 0 and dissipation != 0 (otherwise the code divides by zero or posts into the past)']
+
+    def gen_cases(self, tier, rnd, n):
+        return [gen_case(rnd, tier) for _ in range(n)]
+
+    def execute(self, case):
+        return run_case(case)
+
+    def direct(self, case, obs):
+        return direct(case, obs)
+
+    def to_coq(self, case, obs):
+        return to_coq(case, obs)
+
+    def nontrivial(self, case, obs):
+        if obs.get('skipped') or obs.get('exception'):
+            return None
+        moved = sum(1 for c in obs['calls'] if c[0] == 'T') - len(case['states']) - len(obs['taps'])
+        if len(obs['taps']) >= 3 and moved >= 1:
+            return str(sorted(case.items(), key=str))
+        return None
+
+    def sample_view(self, case, obs):
+        return {'case': case, 'taps': (obs.get('taps') or [])[:6], 'firing_nodes': obs.get('firing_nodes'), 'phases': obs.get('phases')}
